@@ -159,6 +159,7 @@ class SimOracle(object):
         self.same_instant_causes = 0
         self.pending_grants = {}
         self.arrivals = {}           # (obj, side) -> [(time, pid)]
+        self.pq_seq = 0
         self.dropped_at = {}         # instant -> objects that an ending process held
         self.link_active = {lk: True for lk in self.sc.links}    # (cond, object, side) -> still subscribed
         self.traj = {}               # obj -> [(time, value, evno)] value after each event in which it changed
@@ -789,15 +790,15 @@ class SimOracle(object):
         elif name == "kreprio":
             q, h, pr = a[0], int(a[1]), int(a[2])
             if h in self.pq[q]:
-                self.pq[q][h] = (self.pq[q][h][0], pr)
+                self.pq[q][h] = (self.pq[q][h][0], pr, self.pq[q][h][2])
                 self.cls("pq-reprio")
         elif name == "kpos":
             q, h, r = a[0], int(a[1]), int(a[3])
             want = 0
             if h in self.pq[q]:
-                v, pr = self.pq[q][h]
-                want = 1 + sum(1 for hh, (vv, pp) in self.pq[q].items()
-                               if hh != h and (pp > pr or (pp == pr and hh < h)))
+                v, pr, sq = self.pq[q][h]
+                want = 1 + sum(1 for hh, (vv, pp, ss) in self.pq[q].items()
+                               if hh != h and (pp > pr or (pp == pr and ss < sq)))
             if r != want:
                 self.viol("C12", "C12/pq-position", "%s: position(%d) returned %d, expected %d" % (q, h, r, want))
         elif name == "opos":
@@ -1159,7 +1160,8 @@ class SimOracle(object):
         if ret == SUCCESS:
             if h == 0 or h in self.pq[q]:
                 self.viol("C12", "C12/pq-handle", "p%d: put(%s) returned handle %d" % (p.pid, q, h))
-            self.pq[q][h] = (int(c.args[1]), _ival(c.args[2]))
+            self.pq_seq += 1       # "equal priorities in put order": the order of the successful put returns
+            self.pq[q][h] = (int(c.args[1]), _ival(c.args[2]), self.pq_seq)
             if blocked:
                 self.serve_order_check(p, c)
         self._last_obj = q
@@ -1172,9 +1174,9 @@ class SimOracle(object):
             if not m:
                 self.viol("C12", "C12/pq-invented", "p%d: get(%s) delivered %d but the model queue is empty" % (p.pid, q, got))
             else:
-                best = min(m.items(), key=lambda kv: (-kv[1][1], kv[0]))
+                best = min(m.items(), key=lambda kv: (-kv[1][1], kv[1][2]))
                 if got != best[1][0]:
-                    cand = [h for h, (v, pr) in m.items() if v == got]
+                    cand = [h for h, (v, pr, sq) in m.items() if v == got]
                     if cand:
                         self.viol("C12", "C12/pq-order", "p%d: get(%s) delivered %d, but %d (priority %d, handle %d) goes first"
                                   % (p.pid, q, got, best[1][0], best[1][1], best[0]))
